@@ -392,7 +392,10 @@ class Frame:
                 self.err("append of %r" % (s,))
             self.wr(l, ("sacc", self.rd(l)[1] + [s[1]]))
             return ("unit",)
-        if l is not None and self.rd(l)[0] == "counter" and name == "getCount" and not args:
+        # FormatterStringLengthCounter: getCount() (UTF-16 code units) before the repair cf87ee6, getCharacterCount()
+        # (code points) after it; what is counted per character is the string-length model of XpDefs / C02k, the
+        # body language records only WHAT is sent to the counter
+        if l is not None and self.rd(l)[0] == "counter" and name in ("getCount", "getCharacterCount") and not args:
             v = self.rd(l)[1]
             if v is None:
                 self.err("the counter is read before anything was sent to it")
